@@ -29,7 +29,9 @@ abbrev P := StateT PSt (Except PErr)
     and under which marshal.c's own later checks (PyCode_New / _PyCode_Validate / intern_strings)
     accept the code object: the ASCII type codes hold bytes < 0x80; from 3.11 the locals-plus names are a tuple, their kinds a bytes object, and
     a FREE kind is neither LOCAL nor CELL; and (the ghost flag `txt`, set only while the
-    `co_varnames` of Python 3 bytecode is read) no 's' bytes object occurs inside `co_varnames`.  `loads` (used for validation against the
+    name fields of Python 3 bytecode are read: `co_names`, `co_varnames`, `co_freevars`, `co_cellvars`, `co_filename`,
+    `co_name`) no 's' bytes object occurs inside those fields — PyCode_New rejects such an object ("non-string found in
+    code slot", name/filename must be str); xdis reads exactly these fields with bytes_for_s = False.  `loads` (used for validation against the
     interpreters) runs with `strict := false`. -/
 structure SCfg where
   strict : Bool
@@ -243,7 +245,7 @@ def code (sc : SCfg) (e : Nat) (ver : List Nat) : Nat → Nat → Bool → P V
     let flags ← flagsF ver
     let co ← obj sc e ver fuel depth false
     let consts ← obj sc e ver fuel depth false
-    let names ← obj sc e ver fuel depth false
+    let names ← obj sc e ver fuel depth (ge 3 0)
     if ge 3 11 then do
       let lpn ← obj sc e ver fuel depth false
       let lpk ← obj sc e ver fuel depth false
@@ -269,10 +271,10 @@ def code (sc : SCfg) (e : Nat) (ver : List Nat) : Nat → Nat → Bool → P V
         ("co_firstlineno", .int first), ("co_linetable", lt), ("co_exceptiontable", et)]) slot
     else do
       let varnames ← (if ge 1 3 then obj sc e ver fuel depth (ge 3 0) else pure (.tuple []))
-      let freevars ← (if ge 2 1 then obj sc e ver fuel depth false else pure (V.tuple []))
-      let cellvars ← (if ge 2 1 then obj sc e ver fuel depth false else pure (V.tuple []))
-      let filename ← obj sc e ver fuel depth false
-      let name ← obj sc e ver fuel depth false
+      let freevars ← (if ge 2 1 then obj sc e ver fuel depth (ge 3 0) else pure (V.tuple []))
+      let cellvars ← (if ge 2 1 then obj sc e ver fuel depth (ge 3 0) else pure (V.tuple []))
+      let filename ← obj sc e ver fuel depth (ge 3 0)
+      let name ← obj sc e ver fuel depth (ge 3 0)
       let first ← firstF ver
       let lt ← (if ge 1 5 then obj sc e ver fuel depth false else pure (V.bytes []))
       insert (.code [("co_argcount", .int argcount), ("co_posonlyargcount", posonly), ("co_kwonlyargcount", .int kwonly),
